@@ -6,6 +6,8 @@ import (
 	"bufio"
 	"bytes"
 	"fmt"
+	"github.com/evanoberholster/imagemeta/imagetype"
+	"github.com/evanoberholster/imagemeta/tiff"
 	"image"
 	"io"
 	"math"
@@ -182,6 +184,9 @@ func runC01(c *Ctx) error {
 // C02 — every decode terminates after work linear in the input size
 func runC02(c *Ctx) error {
 	c.Res.Rule = "every decode entry point x the corpus of C01 (plain in-memory reader) under a watchdog, with an instrumented io.ReadSeeker: the call returns, requested bytes <= 4*len+64KiB, wall time within a generous per-byte budget. Non-trivial: every case."
+	if err := tiffReqCorrespondence(c); err != nil {
+		return err
+	}
 	ins := corpus(c, c.N(40, 1500), c.N(300, 8000))
 	cases := buildCases(c, ins, func(in epInput, e string) []string { return []string{""} })
 	sweep(cases, 8*time.Second)
@@ -736,7 +741,6 @@ func bufioCorrespondence(c *Ctx) error {
 	return nil
 }
 
-
 // bufioOpsCorrespondence ties the Lean model of Peek / Discard / Read / io.ReadFull and of box.Read (isobmff, through the
 // verif hook VerifBoxChain) over a scheduled source to the real bufio.Reader, io.ReadFull and the real box.Read: mixed
 // operation sequences, one token per operation (bytes, success, remaining lengths of the box chain).
@@ -1000,6 +1004,87 @@ func runC05(c *Ctx) error {
 				tail = tail[len(tail)-1500:]
 			}
 			c.Violate(Case{Entry: "concurrent", Input: fmt.Sprintf("goroutines=%d iterations=%d seed=%d", g, iters, c.Seed), Expected: "soak completes", Actual: fmt.Sprint(err, " ", tail), Kind: "panic", Frame: "fatal", Class: "crash-under-concurrency"})
+		}
+	}
+	return nil
+}
+
+// countingSrc: an in-memory source that delivers what it has up to len(p) and counts what it is asked for.
+type countingSrc struct {
+	r          *bytes.Reader
+	req, reads int
+}
+
+func (s *countingSrc) Read(p []byte) (int, error) {
+	s.req += len(p)
+	s.reads++
+	return s.r.Read(p)
+}
+
+// tiffReqCorrespondence ties the request counters of the Lean model of the header search (Tiff.scanC, theorem
+// C02_tiff_requested) to tiff.ScanTiffHeader on a plain in-memory source: same outcome, same number of bytes asked of the
+// source, same number of Reads - on inputs of every length around the 4096-byte buffer, with and without a header, with
+// tails that make the search step one byte at a time.
+func tiffReqCorrespondence(c *Ctx) error {
+	var ins [][]byte
+	hdr := append([]byte("II*\x00\x08\x00\x00\x00"), bytes.Repeat([]byte{0}, 24)...)
+	for _, n := range []int{0, 1, 2, 31, 32, 33, 63, 64, 100, 4064, 4065, 4095, 4096, 4097, 4127, 4128, 4129, 8191, 8192, 8193, 12000} {
+		for _, fill := range []byte{0, 'I', 'M', 'x'} {
+			ins = append(ins, bytes.Repeat([]byte{fill}, n))
+			ins = append(ins, append(bytes.Repeat([]byte{fill}, n), hdr...))
+			ins = append(ins, append(append(bytes.Repeat([]byte{fill}, n), hdr...), bytes.Repeat([]byte{fill}, 5000)...))
+		}
+	}
+	for i := 0; i < c.N(300, 20000); i++ {
+		n := []int{c.Rng.Intn(200), 4000 + c.Rng.Intn(300), 8100 + c.Rng.Intn(200), c.Rng.Intn(20000)}[c.Rng.Intn(4)]
+		b := make([]byte, n)
+		for j := range b {
+			b[j] = []byte{'I', 'M', '*', 0, 'x'}[c.Rng.Intn(5)]
+		}
+		if c.Rng.Intn(2) == 0 {
+			b = append(b, hdr...)
+			b = append(b, make([]byte, c.Rng.Intn(100))...)
+		}
+		ins = append(ins, b)
+	}
+	reqs := make([]string, len(ins))
+	for i, b := range ins {
+		reqs[i] = "tiff.req " + hexs(b)
+	}
+	model, err := drv.Batch(reqs)
+	if err != nil {
+		return err
+	}
+	for i, b := range ins {
+		src := &countingSrc{r: bytes.NewReader(b)}
+		var res string
+		p, fr, val := safely(func() {
+			h, err := tiff.ScanTiffHeader(src, imagetype.ImageUnknown)
+			if err != nil {
+				res = "err " + errKind(err)
+				return
+			}
+			res = fmt.Sprintf("ok %d %d %d", h.TiffHeaderOffset, int(h.ByteOrder), h.FirstIfdOffset)
+		})
+		if p {
+			res = "panic " + val
+		}
+		// the model also reports the length of the rest of the stream: the private bufio.Reader of ScanTiffHeader hides it
+		m := model[i]
+		if strings.HasPrefix(m, "ok ") {
+			f := strings.Fields(m)
+			if len(f) >= 7 {
+				m = strings.Join(append(f[:4], f[5:]...), " ")
+			}
+		}
+		got := fmt.Sprintf("%s | req=%d reads=%d", res, src.req, src.reads)
+		c.Count("tiffReq "+fmt.Sprint(fnv32(b), len(b)), len(b) >= 32)
+		c.Stat("tiffreq.compared")
+		if got != m {
+			c.Disagree(Case{Entry: "tiff.ScanTiffHeader", Input: hexs(b), Expected: m, Actual: got, Frame: fr, Note: "correspondence Tiff.scanC (request counters) vs tiff.ScanTiffHeader on a counting in-memory source"})
+		}
+		if src.req > 4*len(b)+65536 {
+			c.Violate(Case{Entry: "tiff.ScanTiffHeader", Input: hexs(b), Expected: fmt.Sprintf("requested <= %d", 4*len(b)+65536), Actual: fmt.Sprintf("requested %d in %d reads", src.req, src.reads), Kind: "wrong-value", Class: "superlinear-reads"})
 		}
 	}
 	return nil
